@@ -14,6 +14,14 @@ pub struct Strength {
     pub kicks: Kickers,
 }
 
+#[cfg(robopoker_verif)]
+impl Strength {
+    /// verification hook: the ranking part of a strength
+    pub fn verif_value(&self) -> Ranking {
+        self.value
+    }
+}
+
 impl From<Hand> for Strength {
     fn from(hand: Hand) -> Self {
         Self::from(Evaluator::from(hand))
